@@ -239,3 +239,42 @@ Inductive canswer :=
 | CRouted (o : outcome).     (* the wrapped patRouter's outcome; NotAllowed is answered 404 *)
 Definition cors_serve (tb : table) (m : string) (p : list N) : canswer :=
   if String.eqb m "OPTIONS" then CPreflight else CRouted (route_req tb m p).
+
+(* ---- NewServer options (server.go:42-58, 194-238) ---- *)
+(* options run in order on the server; each handler option acts on the router the server holds AT
+   THAT MOMENT: WithNotFoundHandler(h) -> router.SetNotFoundHandler(ng.notFoundHandler(h)),
+   WithNotAllowedHandler(h) -> router.SetNotAllowedHandler(h), WithCors -> SetNotAllowedHandler(cors
+   handler) + wrap; WithRouter(rt) replaces the server's router by rt - a fresh patRouter has none of
+   the earlier settings. *)
+Inductive sopt := SNotFound (custom : bool) | SNotAllowed | SCors | SRouter.
+Record sconf := mksconf {
+  s_nf : bool;       (* a custom not-found handler is installed *)
+  s_na : nat;        (* not-allowed handler: 0 default (405 + Allow), 1 custom, 2 cors.NotAllowedHandler *)
+  s_cors : bool      (* router wrapped by the cors router (every OPTIONS request -> 204) *)
+}.
+Definition sconf0 : sconf := mksconf false 0 false.
+Definition apply_sopt (c : sconf) (o : sopt) : sconf :=
+  match o with
+  | SNotFound b => mksconf b (s_na c) (s_cors c)
+  | SNotAllowed => mksconf (s_nf c) 1 (s_cors c)
+  | SCors => mksconf (s_nf c) 2 true
+  | SRouter => sconf0
+  end.
+Definition server_conf (opts : list sopt) : sconf := fold_left apply_sopt opts sconf0.
+
+(* who answers a request on such a server *)
+Inductive sanswer :=
+| SPreflight                      (* 204 by the cors layer *)
+| SHandler (rs : list hit)        (* the route's handler *)
+| SDefault405 (ms : list string)  (* 405 + Allow *)
+| SCustomNotAllowed               (* the custom not-allowed handler, once *)
+| SCorsNotAllowed                 (* cors.NotAllowedHandler: 404 *)
+| SCustomNotFound                 (* the custom not-found handler, once; 404 *)
+| SDefault404.
+Definition server_serve (cf : sconf) (tb : table) (m : string) (p : list N) : sanswer :=
+  if s_cors cf && String.eqb m "OPTIONS" then SPreflight
+  else match route_req tb m p with
+       | Hit rs => SHandler rs
+       | NotAllowed ms => match s_na cf with 0%nat => SDefault405 ms | 1%nat => SCustomNotAllowed | _ => SCorsNotAllowed end
+       | NotFound => if s_nf cf then SCustomNotFound else SDefault404
+       end.
